@@ -108,7 +108,7 @@ func compareScan(cs *scanCase, o *scanObs) (ok bool, what string) {
 	if cs.Res == "err" && o.Ei != cs.Ei {
 		return false, fmt.Sprintf("error index: spec %d (%s) code %d (%q)", cs.Ei, cs.Ec, o.Ei, o.Msg)
 	}
-	if !eqLex(o.Out, cs.Out) {
+	if !eqLexModuloBodyTail(o.Out, cs.Out, tapeBytes(cs.Tape)) {
 		return false, fmt.Sprintf("lexemes: spec %v code %v", cs.Out, o.Out)
 	}
 	return true, ""
@@ -235,4 +235,51 @@ func short(s string) string {
 		return s[:i]
 	}
 	return s
+}
+
+// eqLexModuloBodyTail: equal lexemes, except that the extent of a schema / enum body (decided by
+// jsight-schema-core Len()) may also cover blank lines and '#' comments that follow the body.
+func eqLexModuloBodyTail(code, spec []lex, tape []byte) bool {
+	if len(code) != len(spec) {
+		return false
+	}
+	for i := range code {
+		if code[i] == spec[i] {
+			continue
+		}
+		c, s := code[i], spec[i]
+		if c.T != s.T || (c.T != "S" && c.T != "E") || c.B != s.B || c.E < s.E || c.E >= len(tape) {
+			return false
+		}
+		if !onlyTrivia(tape[s.E+1 : c.E+1]) {
+			return false
+		}
+	}
+	return true
+}
+
+// onlyTrivia: blanks, line ends, '#' line comments and '###' block comments only.
+func onlyTrivia(t []byte) bool {
+	for i := 0; i < len(t); {
+		switch {
+		case t[i] == ' ' || t[i] == '\t' || t[i] == '\n' || t[i] == '\r':
+			i++
+		case i+2 < len(t) && t[i] == '#' && t[i+1] == '#' && t[i+2] == '#':
+			j := i + 3
+			for j+2 < len(t) && !(t[j] == '#' && t[j+1] == '#' && t[j+2] == '#') {
+				j++
+			}
+			if j+2 >= len(t) {
+				return false
+			}
+			i = j + 3
+		case t[i] == '#':
+			for i < len(t) && t[i] != '\n' && t[i] != '\r' {
+				i++
+			}
+		default:
+			return false
+		}
+	}
+	return true
 }
